@@ -1,7 +1,7 @@
 (* C11 proofs, part 2: the directory walk of GlobHandle is exact for patterns without `**`
    (it returns each matching file once, and nothing else) and is refuted, with closed witnesses,
    for `**` followed by another segment. *)
-From Coq Require Import List Bool NArith Lia.
+From Coq Require Import List Bool NArith Lia Arith PeanoNat.
 From GV Require Import model.Glob.
 Import ListNotations.
 
@@ -41,6 +41,81 @@ Section Proofs.
   Lemma files_sub_cons_eq : forall c r,
     files_sub (FCons c r) = files_sub r ++ match c with Dir n _ => map (cons n) (files c) | File _ => [] end.
   Proof. reflexivity. Qed.
+
+  (* ---- the stack loop (model `run`) computes `walk` ---- *)
+  Lemma rev_app_frames : forall (a b : list frame), rev (a ++ b) = rev b ++ rev a.
+  Proof. intros a b. apply rev_app_distr. Qed.
+
+  Lemma run_walk :
+    (forall t n ch, t = Dir n ch -> forall path segs, exists fuel, forall k below acc,
+        run m (fuel + k) (mk_fr ch path false segs :: below) acc = run m k below (acc ++ walk m t path segs)) /\
+    (forall f path segs, exists fuel, forall k below acc,
+        run m (fuel + k) (rev (pushes m f path segs) ++ below) acc = run m k below (acc ++ subs m f path segs)).
+  Proof.
+    apply node_forest_ind.
+    - intros n n' ch' E. discriminate.
+    - intros n ch IH n' ch' E path segs. injection E as <- <-.
+      destruct (IH path segs) as [fuel H]. exists (S (fuel + 1)). intros k below acc.
+      cbn [Nat.add run fr_done fr_ch fr_path fr_segs].
+      replace (fuel + 1 + k) with (fuel + S k) by lia.
+      rewrite H. cbn [run fr_done]. rewrite walk_dir_eq, <- app_assoc. reflexivity.
+    - intros path segs. exists 0. intros k below acc. cbn. rewrite app_nil_r. reflexivity.
+    - intros c IHc r IHr path segs.
+      destruct (IHr path segs) as [fr Hr].
+      (* the frames pushed for the entry c alone *)
+      assert (Hc : exists fc, forall k below acc,
+                 run m (fc + k)
+                   (rev (match c, segs with
+                         | Dir n _, s :: rest =>
+                             if dstar s then
+                               child_frame c path segs ++ (match rest with [] => [] | _ :: _ => child_frame c path rest end)
+                             else if m (sid s) n then
+                               (match rest with [] => [] | _ :: _ => child_frame c path rest end)
+                             else []
+                         | _, _ => []
+                         end) ++ below) acc
+                 = run m k below
+                     (acc ++ match c, segs with
+                             | Dir n _, s :: rest =>
+                                 if dstar s then
+                                   (match rest with [] => [] | _ :: _ => walk m c (path ++ [n]) rest end)
+                                   ++ walk m c (path ++ [n]) segs
+                                 else if m (sid s) n then
+                                   (match rest with [] => [] | _ :: _ => walk m c (path ++ [n]) rest end)
+                                 else []
+                             | _, _ => []
+                             end)).
+      { assert (Z : exists fc : nat, forall k below acc, run m (fc + k) (rev [] ++ below) acc = run m k below (acc ++ [])).
+        { exists 0. intros k below acc. cbn. rewrite app_nil_r. reflexivity. }
+        destruct c as [n|n ch]; [exact Z|].
+        destruct segs as [|s rest]; [exact Z|].
+        assert (One : forall segs', exists f1, forall k below acc,
+                   run m (f1 + k) (rev (child_frame (Dir n ch) path segs') ++ below) acc
+                   = run m k below (acc ++ walk m (Dir n ch) (path ++ [n]) segs')).
+        { intro segs'. destruct (IHc n ch eq_refl (path ++ [n]) segs') as [f1 H1]. exists f1. intros k below acc.
+          cbn [child_frame rev app]. apply H1. }
+        destruct (dstar s).
+        - destruct rest as [|s2 rest'].
+          + rewrite app_nil_r. cbn [app]. apply One.
+          + destruct (One (s :: s2 :: rest')) as [f1 H1]. destruct (One (s2 :: rest')) as [f2 H2].
+            exists (f2 + f1). intros k below acc.
+            rewrite rev_app_frames, <- app_assoc, <- Nat.add_assoc, H2, H1, <- app_assoc. reflexivity.
+        - destruct (m (sid s) n); [|exact Z].
+          destruct rest as [|s2 rest']; [exact Z|]. apply One. }
+      destruct Hc as [fc Hc].
+      exists (fr + fc). intros k below acc.
+      cbn [pushes]. rewrite subs_cons_eq.
+      rewrite rev_app_frames, <- app_assoc, <- Nat.add_assoc, Hr, Hc, <- app_assoc. reflexivity.
+  Qed.
+
+  Lemma expand_stack_is_expand : forall root segs,
+    exists fuel, forall k, expand_stack m (fuel + S k) root segs = Some (expand m root segs).
+  Proof.
+    intros [n|n ch] segs.
+    - exists 0. intro k. reflexivity.
+    - destruct (proj1 run_walk (Dir n ch) n ch eq_refl [] segs) as [fuel H].
+      exists fuel. intro k. unfold expand_stack, expand. rewrite H. reflexivity.
+  Qed.
 
   (* no segment left: nothing is listed (the code never pushes such a handle) *)
   Lemma walk_nil_all :
@@ -127,6 +202,172 @@ Section Proofs.
           symmetry. apply (proj1 walk_nil_all).
   Qed.
 
+  (* ---- the same for patterns whose only `**` is the LAST segment ---- *)
+  Fixpoint okp (segs : list seg) : Prop :=
+    match segs with
+    | [] => True
+    | s :: r => match r with [] => True | _ :: _ => dstar s = false /\ okp r end
+    end.
+
+  Lemma nodstar_okp : forall segs, nodstar segs -> okp segs.
+  Proof.
+    induction segs as [|s r IH]; intro Hn; [exact I|].
+    destruct (nodstar_tail _ _ Hn) as [Hs Hr]. cbn [okp]. destruct r as [|s2 r']; [exact I|].
+    split; [exact Hs|apply IH; exact Hr].
+  Qed.
+
+  Lemma gmatch_okp_nil : forall segs, okp segs -> segs <> [] -> gmatch m segs [] = false.
+  Proof.
+    intros [|s r] Hk Hne; [contradiction|]. cbn [gmatch].
+    destruct r as [|s2 r'].
+    - destruct (dstar s); reflexivity.
+    - destruct Hk as [Hs _]. rewrite Hs. reflexivity.
+  Qed.
+
+  Lemma files_nonempty :
+    (forall t q, In q (files t) -> q <> []) /\
+    (forall f, (forall q, In q (files_here f) -> q <> []) /\ (forall q, In q (files_sub f) -> q <> [])).
+  Proof.
+    apply node_forest_ind.
+    - intros n q [].
+    - intros n ch [H1 H2] q Hq. rewrite files_dir_eq in Hq. apply in_app_or in Hq. destruct Hq; auto.
+    - split; intros q [].
+    - intros c IHc r [R1 R2]. split.
+      + intros q Hq. destruct c as [n|n ch]; cbn [files_here] in Hq; [|auto].
+        destruct Hq as [<-|Hq]; [discriminate|auto].
+      + intros q Hq. rewrite files_sub_cons_eq in Hq. apply in_app_or in Hq. destruct Hq as [Hq|Hq]; [auto|].
+        destruct c as [n|n ch]; [destruct Hq|]. apply in_map_iff in Hq. destruct Hq as (q' & <- & _). discriminate.
+  Qed.
+
+  Lemma filter_all : forall {A} (p : A -> bool) l, (forall x, In x l -> p x = true) -> filter p l = l.
+  Proof.
+    intros A p l; induction l as [|x r IH]; intro H; cbn; [reflexivity|].
+    rewrite (H x (or_introl eq_refl)). f_equal. apply IH. intros y Hy; apply H; right; exact Hy.
+  Qed.
+
+  Lemma gmatch_last_dstar : forall s q, dstar s = true -> q <> [] -> gmatch m [s] q = true.
+  Proof. intros s q Hs Hq. cbn [gmatch]. rewrite Hs. destruct q; [contradiction|reflexivity]. Qed.
+
+  Lemma walk_is_filter_okp :
+    (forall t path segs, okp segs ->
+       walk m t path segs = map (app path) (filter (gmatch m segs) (files t))) /\
+    (forall f path segs, okp segs ->
+       emits m f path segs = map (app path) (filter (gmatch m segs) (files_here f)) /\
+       subs m f path segs = map (app path) (filter (gmatch m segs) (files_sub f))).
+  Proof.
+    apply node_forest_ind.
+    - intros n path segs _. reflexivity.
+    - intros n ch IH path segs Hn. rewrite walk_dir_eq, files_dir_eq.
+      destruct (IH path segs Hn) as [-> ->]. rewrite filter_app_g, map_app. reflexivity.
+    - intros path segs _. split; reflexivity.
+    - intros c IHc r IHr path segs Hn. destruct (IHr path segs Hn) as [He Hs]. split.
+      + destruct c as [n|n ch]; cbn [emits files_here]; [|exact He].
+        rewrite He. cbn [filter].
+        destruct segs as [|s [|s2 rest]]; [reflexivity| |].
+        * destruct (dstar s) eqn:Hds.
+          -- rewrite (gmatch_last_dstar s [n] Hds) by discriminate. reflexivity.
+          -- rewrite gmatch_cons by exact Hds. cbn [gmatch]. rewrite andb_true_r.
+             destruct (m (sid s) n); reflexivity.
+        * destruct Hn as [Hds Hrest]. rewrite gmatch_cons by exact Hds.
+          rewrite (gmatch_okp_nil (s2 :: rest) Hrest) by discriminate. rewrite andb_false_r. reflexivity.
+      + rewrite subs_cons_eq, files_sub_cons_eq. rewrite Hs, filter_app_g, map_app. f_equal.
+        destruct c as [n|n ch]; [reflexivity|].
+        destruct segs as [|s rest].
+        * rewrite filter_nil_map_cons. reflexivity.
+        * destruct rest as [|s2 rest'].
+          -- (* last segment *)
+             destruct (dstar s) eqn:Hds.
+             ++ cbn [app]. rewrite (IHc (path ++ [n]) [s] I).
+                assert (A1 : filter (gmatch m [s]) (files (Dir n ch)) = files (Dir n ch)).
+                { apply filter_all. intros q Hq. apply gmatch_last_dstar; [exact Hds|].
+                  apply (proj1 files_nonempty (Dir n ch) q Hq). }
+                assert (A2 : filter (gmatch m [s]) (map (cons n) (files (Dir n ch))) = map (cons n) (files (Dir n ch))).
+                { apply filter_all. intros q Hq. apply gmatch_last_dstar; [exact Hds|].
+                  apply in_map_iff in Hq. destruct Hq as (q' & <- & _). discriminate. }
+                rewrite A1, A2, map_app_cons. reflexivity.
+             ++ rewrite filter_map_cons by exact Hds.
+                destruct (m (sid s) n); [|reflexivity].
+                rewrite map_app_cons. rewrite <- (IHc (path ++ [n]) [] I).
+                symmetry. apply (proj1 walk_nil_all).
+          -- destruct Hn as [Hds Hrest]. rewrite Hds.
+             rewrite filter_map_cons by exact Hds.
+             destruct (m (sid s) n); [|reflexivity].
+             rewrite map_app_cons. rewrite <- (IHc (path ++ [n]) (s2 :: rest') Hrest). reflexivity.
+  Qed.
+
+  (* ---- for EVERY pattern (also `**` anywhere) the walk only returns files that match: the
+     deviations of the refuted cases are omissions and repetitions, never a wrong file ---- *)
+  Lemma gmatch_dstar_skip : forall s rest n q, dstar s = true ->
+    gmatch m (s :: rest) q = true -> gmatch m (s :: rest) (n :: q) = true.
+  Proof.
+    intros s rest n q Hs H. cbn [gmatch] in *. rewrite Hs in *.
+    destruct rest as [|s2 rest']; [reflexivity|].
+    rewrite H. apply orb_true_r.
+  Qed.
+
+  Lemma gmatch_dstar_zero : forall s s2 rest q, dstar s = true ->
+    gmatch m (s2 :: rest) q = true -> gmatch m (s :: s2 :: rest) q = true.
+  Proof.
+    intros s s2 rest q Hs H. cbn [gmatch]. rewrite Hs.
+    destruct q as [|n q']; cbn [gmatch] in H |- *; rewrite H; reflexivity.
+  Qed.
+
+  Lemma walk_sound_all :
+    (forall t path segs q, In q (walk m t path segs) ->
+       exists rel, q = path ++ rel /\ In rel (files t) /\ gmatch m segs rel = true) /\
+    (forall f path segs q,
+       (In q (emits m f path segs) -> exists rel, q = path ++ rel /\ In rel (files_here f) /\ gmatch m segs rel = true) /\
+       (In q (subs m f path segs) -> exists rel, q = path ++ rel /\ In rel (files_sub f) /\ gmatch m segs rel = true)).
+  Proof.
+    apply node_forest_ind.
+    - intros n path segs q [].
+    - intros n ch IH path segs q Hq. rewrite walk_dir_eq in Hq. rewrite files_dir_eq.
+      apply in_app_or in Hq. destruct Hq as [Hq|Hq].
+      + destruct (proj1 (IH path segs q) Hq) as (rel & E & Hin & Hm). exists rel. repeat split; auto. apply in_or_app; left; exact Hin.
+      + destruct (proj2 (IH path segs q) Hq) as (rel & E & Hin & Hm). exists rel. repeat split; auto. apply in_or_app; right; exact Hin.
+    - intros path segs q. split; intros [].
+    - intros c IHc r IHr path segs q. split.
+      + intro Hq. destruct c as [n|n ch]; cbn [emits files_here] in *.
+        * apply in_app_or in Hq. destruct Hq as [Hq|Hq].
+          -- destruct segs as [|s [|s2 rest]]; try (destruct Hq; fail).
+             destruct (dstar s) eqn:Hds.
+             ++ destruct Hq as [<-|[]]. exists [n]. split; [reflexivity|]. split; [left; reflexivity|].
+                apply gmatch_last_dstar; [exact Hds|discriminate].
+             ++ destruct (m (sid s) n) eqn:Hmn; [|destruct Hq].
+                destruct Hq as [<-|[]]. exists [n]. split; [reflexivity|]. split; [left; reflexivity|].
+                rewrite gmatch_cons by exact Hds. rewrite Hmn. reflexivity.
+          -- destruct (proj1 (IHr path segs q) Hq) as (rel & E & Hin & Hm). exists rel. repeat split; auto. right; exact Hin.
+        * apply (proj1 (IHr path segs q) Hq).
+      + intro Hq. rewrite subs_cons_eq in Hq. rewrite files_sub_cons_eq.
+        apply in_app_or in Hq. destruct Hq as [Hq|Hq].
+        * destruct (proj2 (IHr path segs q) Hq) as (rel & E & Hin & Hm). exists rel. repeat split; auto.
+          apply in_or_app; left; exact Hin.
+        * destruct c as [n|n ch]; [destruct Hq|].
+          destruct segs as [|s rest]; [destruct Hq|].
+          assert (Lift : forall segs', In q (walk m (Dir n ch) (path ++ [n]) segs') ->
+                    (forall rel', gmatch m segs' rel' = true -> gmatch m (s :: rest) (n :: rel') = true) ->
+                    exists rel, q = path ++ rel /\
+                      In rel (files_sub r ++ map (cons n) (files (Dir n ch))) /\ gmatch m (s :: rest) rel = true).
+          { intros segs' Hw Hg. destruct (IHc (path ++ [n]) segs' q Hw) as (rel' & E & Hin & Hm).
+            exists (n :: rel'). split; [rewrite E, <- app_assoc; reflexivity|]. split; [|apply Hg; exact Hm].
+            apply in_or_app; right. apply in_map. exact Hin. }
+          destruct (dstar s) eqn:Hds.
+          -- apply in_app_or in Hq. destruct Hq as [Hq|Hq].
+             ++ destruct rest as [|s2 rest']; [destruct Hq|].
+                apply (Lift (s2 :: rest') Hq). intros rel' Hm.
+                apply gmatch_dstar_skip; [exact Hds|]. apply gmatch_dstar_zero; assumption.
+             ++ apply (Lift (s :: rest) Hq). intros rel' Hm. apply gmatch_dstar_skip; assumption.
+          -- destruct (m (sid s) n) eqn:Hmn; [|destruct Hq].
+             destruct rest as [|s2 rest']; [destruct Hq|].
+             apply (Lift (s2 :: rest') Hq). intros rel' Hm. rewrite gmatch_cons by exact Hds. rewrite Hmn, Hm. reflexivity.
+  Qed.
+
+  Lemma glob_sound_all : forall root segs p, In p (expand m root segs) -> matches m root segs p.
+  Proof.
+    intros root segs p Hp. destruct (proj1 walk_sound_all root [] segs p Hp) as (rel & E & Hin & Hm).
+    cbn [app] in E. subst rel. split; assumption.
+  Qed.
+
   (* ---- every file of a well-formed tree is listed once by `files` ---- *)
   Lemma nodup_app_intro : forall {A} (l1 l2 : list A),
     NoDup l1 -> NoDup l2 -> (forall x, In x l1 -> ~ In x l2) -> NoDup (l1 ++ l2).
@@ -207,6 +448,22 @@ Section Proofs.
     rewrite (map_ext (app []) (fun x => x)) by reflexivity. apply map_id.
   Qed.
 
+  Lemma expand_is_spec_okp : forall root segs, okp segs -> expand m root segs = spec_expand m root segs.
+  Proof.
+    intros root segs Hn. unfold expand, spec_expand.
+    rewrite (proj1 walk_is_filter_okp root [] segs Hn).
+    rewrite (map_ext (app []) (fun x => x)) by reflexivity. apply map_id.
+  Qed.
+
+  (* T: glob_exact for patterns whose only `**` (if any) is the last segment *)
+  Lemma glob_exact_dstar_last : forall root segs, okp segs -> wf root ->
+    NoDup (expand m root segs) /\ (forall p, In p (expand m root segs) <-> matches m root segs p).
+  Proof.
+    intros root segs Hn Hwf. rewrite (expand_is_spec_okp root segs Hn). unfold spec_expand, matches. split.
+    - apply nodup_filter_. apply (proj1 (proj1 files_nodup root Hwf)).
+    - intro p. apply filter_In.
+  Qed.
+
   (* T: glob_exact for patterns without `**` *)
   Lemma glob_exact_nodstar : forall root segs, nodstar segs -> wf root ->
     NoDup (expand m root segs) /\ (forall p, In p (expand m root segs) <-> matches m root segs p).
@@ -236,6 +493,10 @@ Proof.
   split; [|split; [exact tree_w_wf|vm_compute; reflexivity]].
   intros s [<-|[]]. reflexivity.
 Qed.
+
+Example glob_dstar_last_hyps_sat : okp [star_csv; dd] /\ okp [dd] /\ wf tree_w /\
+  expand m_w tree_w [dd] = [[1]; [2; 3]; [2; 4; 5]; [2; 4; 6; 7]]%N.
+Proof. split; [split; [reflexivity|exact I]|]. split; [exact I|]. split; [exact tree_w_wf|vm_compute; reflexivity]. Qed.
 
 (* `d/**/*.csv` never lets `**` stand for zero directories: d/a.csv is not returned *)
 Lemma glob_dstar_expand_w :
